@@ -2,7 +2,7 @@
    `threading_choose_num_blocks` and `threading_get_block_range` are the
    functions REGENERATED from /repo/quimb/core.py on every run (Gen/C16_gen.v). *)
 From Coq Require Import ZArith List Bool Permutation.
-From QV Require Import Base.PyZ Gen.C16_gen C16.Proofs.
+From QV Require Import Base.PyZ Gen.C16_gen C16.Proofs C16.World.
 Import ListNotations.
 Open Scope Z_scope.
 
@@ -55,3 +55,38 @@ Theorem C16_par_reduce_eq_reduce : forall (A : Type) (f : A -> A -> A),
   forall l, l <> [] -> preduce A f (S (length l)) l = reduce A f l.
 Proof. exact par_reduce_eq_reduce. Qed.
 Print Assumptions C16_par_reduce_eq_reduce.
+
+(* ---- the worker ("world") level of the parallel operator build / application (C16/World.v) ---- *)
+Close Scope Z_scope.
+Open Scope nat_scope.
+(* every row index below D is visited by exactly one of the W workers (range(world_rank, D, world_size)),
+   exactly once: the visit lists concatenated in rank order are a permutation of range(D) *)
+Theorem C16_world_every_row_exactly_one_worker : forall D W, (1 <= W)%nat ->
+  Permutation (seq 0 D) (all_strides D W) /\
+  (forall ci, (ci < D)%nat -> exists! r, (r < W)%nat /\ In ci (stride r D W)).
+Proof. intros D W HW. split; [exact (world_partition D W HW) | intros ci Hci; exact (world_unique_worker D W ci HW Hci)]. Qed.
+Print Assumptions C16_world_every_row_exactly_one_worker.
+
+(* the parallel COO build (workers' triplet lists concatenated in rank order) is a permutation of the serial
+   build, for every per-row emission function; with one worker it is the serial build *)
+Theorem C16_world_parallel_coo_is_serial_coo : forall (T : Type) (emit : nat -> list T) D W, (1 <= W)%nat ->
+  Permutation (coo_serial T emit D) (coo_parallel T emit D W) /\ coo_parallel T emit D 1 = coo_serial T emit D.
+Proof. intros T emit D W HW. split; [exact (coo_parallel_is_permutation_of_serial T emit D W HW) | exact (coo_one_worker T emit D)]. Qed.
+Print Assumptions C16_world_parallel_coo_is_serial_coo.
+
+(* the parallel matvec (private zeroed buffers, summed over `out`) is the serial matvec (out cleared, then
+   accumulated into) over ANY commutative monoid, for every caller-supplied content of `out` *)
+Theorem C16_world_parallel_matvec_is_serial : forall (V : Type) (v0 : V) (vadd : V -> V -> V),
+  (forall a b, vadd a b = vadd b a) -> (forall a b c, vadd a (vadd b c) = vadd (vadd a b) c) ->
+  (forall a, vadd v0 a = a) ->
+  forall (contrib : nat -> nat -> V) out out' D W, (1 <= W)%nat ->
+  forall j, matvec_parallel V v0 vadd contrib out D W j = matvec_serial V v0 vadd contrib out' D j.
+Proof. exact matvec_parallel_is_serial. Qed.
+Print Assumptions C16_world_parallel_matvec_is_serial.
+
+(* non-vacuity / executable instance used by the correspondence *)
+Example C16_world_example :
+  stride 1 10 3 = [1; 4; 7]%nat /\ stride 2 2 3 = []%nat /\ all_strides 7 3 = [0; 3; 6; 1; 4; 2; 5]%nat
+  /\ matvec_parallel nat 0%nat Nat.add (fun ci j => (ci * (j + 1))%nat) (fun _ => 9%nat) 7 3 2%nat
+     = matvec_serial nat 0%nat Nat.add (fun ci j => (ci * (j + 1))%nat) (fun _ => 0%nat) 7 2%nat.
+Proof. vm_compute. repeat split; reflexivity. Qed.
